@@ -32,7 +32,7 @@ THEOREMS = [
         "binop_table", "intdiv_real", "intdiv_without_cast_truncates", "pow_real", "pow_int_exact_partial",
         "unary", "unary_type", "compare", "bool_refused", "other_operators_refused",
         "const_typing", "guess_type_legacy", "set_var_cast", "acc_wide_enough", "agg_refusals",
-        "count_correct", "sum_correct", "maxmin_correct_partial", "cond_arm", "cond_shape",
+        "count_correct", "sum_correct", "maxmin_correct_partial", "cond_arm", "cond_shape", "boolop_truth",
         "mod_float_counterexample", "neg_bool_counterexample", "not_float_counterexample",
         "not_float_kind_counterexample", "cond_int_counterexample", "max_int_counterexample", "mod_negative_differs",
     ]
@@ -66,7 +66,7 @@ ASSUMPTIONS = [
 ]
 
 QUICK_RANDOM = 140
-THOROUGH_RANDOM = 1400
+THOROUGH_RANDOM = 3500
 
 
 # ------------------------------------------------------------------------------------------------------------ translator
